@@ -21,6 +21,15 @@ CLAIMED = {
     ),
 }
 
+# fragments written per property: manifest.d/Cxx.json = {"technique":..,"text":..,"note":..,"design_ref":..}
+# a fragment is only used once the property is listed in ENABLED (checks green on /repo itself)
+ENABLED = ["C11"]
+for _f in sorted((V / "manifest.d").glob("C*.json")) if (V / "manifest.d").is_dir() else []:
+    _d = json.loads(_f.read_text())
+    if _f.stem in ENABLED:
+        CLAIMED[_f.stem] = (_d["technique"], _d["text"], _d["note"], _d.get("design_ref", f"DESIGN.md section 5 {_f.stem}"))
+CLAIMED = {k: v for k, v in sorted(CLAIMED.items()) if k in ENABLED}
+
 NOT_YET = "check not built yet in this session (planned: Lean model + proof + correspondence, see DESIGN.md section 5)"
 
 
